@@ -99,4 +99,113 @@ theorem cell_midpoints {f : Fmt} (k q : Nat) (h1 : 0 < k → 2 ^ (f.p - 1) ≤ q
       rw [show t + 1 - 1 = t by omega, show 4 * (t + 1) - 2 = 4 * t + 2 by omega]
       ring
 
+/-! ## `scalePQ`, `candRange`, `closestIn`, `shortestGo` -/
+
+/-- the two fractions inside `scalePQ` -/
+def binFrac (e2 : Int) : Nat × Nat := if e2 ≥ 0 then (2 ^ e2.toNat, 1) else (1, 2 ^ (-e2).toNat)
+def tenFrac (E : Int) : Nat × Nat := if E ≥ 0 then (10 ^ E.toNat, 1) else (1, 10 ^ (-E).toNat)
+
+theorem scalePQ_eq (e2 E : Int) :
+    scalePQ e2 E = ((tenFrac E).1 * (binFrac e2).2, (binFrac e2).1 * (tenFrac E).2) := by
+  unfold scalePQ binFrac tenFrac
+  split; split; simp_all
+
+theorem binFrac_pos (e2 : Int) : 0 < (binFrac e2).1 ∧ 0 < (binFrac e2).2 := by
+  unfold binFrac; split <;> simp
+
+theorem tenFrac_pos (E : Int) : 0 < (tenFrac E).1 ∧ 0 < (tenFrac E).2 := by
+  unfold tenFrac; split <;> simp
+
+/-- `2^e2 = an/ad` with `e2 = k - L - 2` -/
+theorem binFrac_scale (k l : Nat) :
+    (binFrac ((k : Int) - (l : Int) - 2)).1 * 2 ^ l * 4 = (binFrac ((k : Int) - (l : Int) - 2)).2 * 2 ^ k := by
+  unfold binFrac
+  split
+  · rename_i h
+    obtain ⟨j, hj⟩ : ∃ j : Nat, ((k : Int) - (l : Int) - 2).toNat = j := ⟨_, rfl⟩
+    have : k = j + l + 2 := by omega
+    rw [hj, this]; simp only []; ring
+  · rename_i h
+    obtain ⟨j, hj⟩ : ∃ j : Nat, (-((k : Int) - (l : Int) - 2)).toNat = j := ⟨_, rfl⟩
+    have : l + 2 = j + k := by omega
+    rw [hj]; simp only []
+    calc 1 * 2 ^ l * 4 = 2 ^ (l + 2) := by ring
+      _ = 2 ^ (j + k) := by rw [this]
+      _ = 2 ^ j * 2 ^ k := by ring
+
+theorem decFrac_eq (D : Nat) (E : Int) : decFrac D E = (D * (tenFrac E).1, (tenFrac E).2) := by
+  unfold decFrac tenFrac; split <;> simp
+
+theorem ceil_le {P a D : Nat} (hP : 0 < P) (h : (a + P - 1) / P ≤ D) : a ≤ D * P := by
+  have : (a + P - 1) / P < D + 1 := by omega
+  rw [Nat.div_lt_iff_lt_mul hP, Nat.succ_mul] at this
+  omega
+
+theorem floor_le {P a D : Nat} (hP : 0 < P) (h : D ≤ a / P) : D * P ≤ a :=
+  (Nat.le_div_iff_mul_le hP).mp h
+
+/-- every `D` in the candidate range is `≥ 1` and lies inside `[lo, hi]·Q/P`, strictly if `¬incl` -/
+theorem candRange_spec (iv : Interval) (E : Int) (P Q : Nat) (hPQ : scalePQ iv.e2 E = (P, Q))
+    (hP : 0 < P) (D : Nat) (h1 : (candRange iv E).1 ≤ D) (h2 : D ≤ (candRange iv E).2) :
+    1 ≤ D ∧ iv.lo * Q ≤ D * P ∧ D * P ≤ iv.hi * Q ∧
+    (iv.incl = false → iv.lo * Q < D * P ∧ D * P < iv.hi * Q) := by
+  unfold candRange at h1 h2
+  simp only [hPQ] at h1 h2
+  generalize iv.lo * Q = loN at *
+  generalize iv.hi * Q = hiN at *
+  have hD1 : 1 ≤ D := le_trans (le_max_right _ _) h1
+  have hdlo := le_trans (le_max_left _ _) h1
+  clear h1
+  by_cases hin : iv.incl = true
+  · simp only [hin, not_true_eq_false, false_and, if_false] at hdlo h2
+    exact ⟨hD1, ceil_le hP hdlo, floor_le hP h2, by simp [hin]⟩
+  · have hin' : iv.incl = false := by simpa using hin
+    simp only [hin', Bool.false_eq_true, not_false_eq_true, true_and] at hdlo h2
+    have lo_le : loN ≤ D * P := ceil_le hP (by split at hdlo <;> omega)
+    have hi_le : D * P ≤ hiN := floor_le hP (by split at h2 <;> omega)
+    refine ⟨hD1, lo_le, hi_le, fun _ => ⟨?_, ?_⟩⟩
+    · by_cases hm : loN % P = 0
+      · rw [if_pos hm] at hdlo
+        obtain ⟨D', rfl⟩ : ∃ D', D = D' + 1 := ⟨D - 1, by omega⟩
+        have := ceil_le (a := loN) (D := D') hP (by omega)
+        rw [Nat.succ_mul]; omega
+      · apply lt_of_le_of_ne lo_le
+        intro he; apply hm; rw [he]; exact Nat.mul_mod_left _ _
+    · by_cases hm : hiN % P = 0
+      · rw [if_pos hm] at h2
+        have := floor_le (a := hiN) (D := D + 1) hP (by omega)
+        rw [Nat.succ_mul] at this; omega
+      · apply lt_of_le_of_ne hi_le
+        intro he; apply hm; rw [← he]; exact Nat.mul_mod_left _ _
+
+theorem pick_mem (c : List Nat) (dlo dhi d1 D : Nat) (h : dlo ≤ dhi)
+    (hD : D ∈ (if (c.filter (fun d => dlo ≤ d ∧ d ≤ dhi)).isEmpty then (if d1 < dlo then [dlo] else [dhi])
+      else c.filter (fun d => dlo ≤ d ∧ d ≤ dhi))) : dlo ≤ D ∧ D ≤ dhi := by
+  by_cases he : (c.filter (fun d => dlo ≤ d ∧ d ≤ dhi)).isEmpty = true
+  · rw [if_pos he] at hD
+    split at hD <;> simp only [List.mem_singleton] at hD <;> omega
+  · rw [if_neg he] at hD
+    have := (List.mem_filter.mp hD).2
+    simpa using this
+
+theorem closestIn_mem (iv : Interval) (E : Int) (dlo dhi : Nat) (h : dlo ≤ dhi) (D : Nat)
+    (hD : D ∈ closestIn iv E dlo dhi) : dlo ≤ D ∧ D ≤ dhi := by
+  unfold closestIn at hD
+  exact pick_mem _ dlo dhi _ D h hD
+
+theorem shortestGo_mem (iv : Interval) (fuel : Nat) (E0 : Int) (D : Nat) (E : Int)
+    (h : (D, E) ∈ shortestGo iv fuel E0) : (candRange iv E).1 ≤ D ∧ D ≤ (candRange iv E).2 := by
+  induction fuel generalizing E0 with
+  | zero => simp [shortestGo] at h
+  | succ n ih =>
+    unfold shortestGo at h
+    simp only [] at h
+    split at h
+    · rename_i hle
+      obtain ⟨d, hd, he⟩ := List.mem_map.mp h
+      simp only [Prod.mk.injEq] at he
+      obtain ⟨rfl, rfl⟩ := he
+      exact closestIn_mem iv E0 _ _ hle d hd
+    · exact ih _ h
+
 end LexVerif.Proof.RoundNE
